@@ -555,7 +555,7 @@ InvProg(c) == LET fd == InvFns[c.fn] IN
   [P0(<<Global(<<"cbcall", "cbcall2">>)>> \o fd.pre \o [i \in 1..3 |-> InvCall(c.how[i], fd.args[i], i)] \o <<Ret(I(0))>>)
     EXCEPT !.mods = ModsOf(1), !.globals = HostGlobals]
 InvIdx == [f : {"inv"}, fn : 1..Len(InvFns), how : [1..3 -> {"in", "cb", "cb2"}]]
-          \cup [f : {"invseq"}, fn : 1..Len(InvFns) + 3, how : {"cbseq", "cbseq2"}, perm : 1..3]
+          \cup [f : {"invseq"}, fn : 1..Len(InvFns) + 3, how : {"cbseq", "cbseq2", "cbseq3"}, perm : 1..3]
 \* one Invoker used for a history of calls (child VM re-used without release in between)
 SeqFns == InvFns \o <<
   \* recursion in statement position that ends in an uncaught throw, then ordinary calls
@@ -573,12 +573,12 @@ SeqFns == InvFns \o <<
 >>
 Perm(as, p) == CASE p = 1 -> as [] p = 2 -> <<as[2], as[3], as[1]>> [] p = 3 -> <<as[3], as[1], as[2]>>
 InvSeqProg(c) == LET fd == SeqFns[c.fn]  as == Perm(fd.args, c.perm) IN
-  [P0(<<Global(<<"cbcall", "cbcall2", "cbseq", "cbseq2">>)>> \o fd.pre
+  [P0(<<Global(<<"cbcall", "cbcall2", "cbseq", "cbseq2", "cbseq3">>)>> \o fd.pre
       \o (IF "post" \in DOMAIN fd
           THEN <<Def("rr", Call(Id(c.how), <<Id("f"), Arr([i \in 1..3 |-> Arr(as[i])])>>)),
                  Ret(Arr(<<C0(Idx(Id("rr"), I(0))), C0(Idx(Id("rr"), I(1))), C0(Idx(Id("rr"), I(2))), C0(Idx(Id("rr"), I(0)))>>))>>
           ELSE <<Ret(Call(Id(c.how), <<Id("f"), Arr([i \in 1..3 |-> Arr(as[i])])>>))>>))
-    EXCEPT !.mods = ModsOf(1), !.globals = [x \in {"cbcall", "cbcall2", "cbseq", "cbseq2"} |-> VBi(x)]]
+    EXCEPT !.mods = ModsOf(1), !.globals = [x \in {"cbcall", "cbcall2", "cbseq", "cbseq2", "cbseq3"} |-> VBi(x)]]
 
 (* ---------------------------------------------------------- the states *)
 \* the catch identifier is a variable of its own, fresh for every execution of the catch clause
